@@ -501,7 +501,9 @@ class CooperativeAwarenessMessage:
         return {
             "semiMajorAxisLength": self.create_semi_axis_length(major),
             "semiMinorAxisLength": self.create_semi_axis_length(minor),
-            "semiMajorAxisOrientation": 0,
+            # epy is the north-south (latitude) error estimate, epx the east-west one: the major
+            # axis points north (0) when epy dominates and east (90.0 degrees) otherwise.
+            "semiMajorAxisOrientation": 0 if epy >= epx else 900,
         }
 
     @staticmethod
